@@ -92,7 +92,7 @@ var expectedProbes = map[string][]string{
 func selftest(args []string) int {
 	seeds := 30
 	var only []string
-	for i := 1; i < len(args); i++ {
+	for i := 0; i < len(args); i++ {
 		switch args[i] {
 		case "--seeds":
 			i++
